@@ -163,6 +163,12 @@ class ParallelSimulation:
 
     def run(self) -> ParallelSimulationSummary:
         """Execute all partitions and return an aggregate summary."""
+        # Align the partitions' run-time sort indices here, in declaration
+        # order: left to the workers, the index ranges (and with them the order
+        # of same-instant events from different partitions) would follow
+        # thread scheduling.
+        for sim in self._simulations.values():
+            sim._event_heap.continue_counter_after_pending()
         if self._links:
             return self._run_coordinated()
         return self._run_independent()
